@@ -36,12 +36,18 @@ pub fn check_rule_with_hint<'r, L: Language>(
     CheckHint::Normal => {
       check_utils_defined(rule, constraints)?;
       utils.verify_local_utils()?;
+      if let Some(f) = fixer {
+        f.verify_util()?;
+      }
       check_vars(rule, utils, constraints, transform, fixer)?;
     }
     // upper_vars is needed to check metavar defined in containing vars
     CheckHint::Rewriter(upper_vars) => {
       check_utils_defined(rule, constraints)?;
       utils.verify_local_utils()?;
+      if let Some(f) = fixer {
+        f.verify_util()?;
+      }
       check_vars_in_rewriter(rule, utils, constraints, transform, fixer, upper_vars)?;
     }
   }
